@@ -3,7 +3,8 @@
  1. TLC: FftSchedule.tla - the butterfly schedule and twiddle exponents of the reference split-layout FFT (leaves of
     16/8/4/2, breadth-first radix-4 passes, recursive halving) as a symbolic machine over exponents of w = exp(2 pi i/4m):
     every output j is the evaluation at w^(1 + 4 bitrev j), one monomial per (output, input), for m = 1..256 in the
-    breadth-first regime and with a lowered recursion threshold (the recursive regime at small m).
+    breadth-first regime and with a lowered recursion threshold (the recursive regime at small m); FftInverse.tla -
+    the inverse schedule (reim_ifft_ref.c) executed on the symbolic output of the forward map gives m * identity.
  2. table binding (advisory): the real twiddle tables of new_reim_fft_precomp for m <= 2048 against the table TLC
     generates from the schedule (cos / sin of the generated exponent, absolute tolerance 8 * 2^-53).
  3. impulse probes on every implementation (reference, AVX2/FMA drivers incl. the assembly leaves, dispatch under both
@@ -227,6 +228,10 @@ def run(chk, replay=None):
         r = run_tlc("FftSchedule", cfg, workers=9, xmx="16g", name="c06-" + cfg, timeout=1800)
         tlc_must_pass(r, cfg)
         chk.add_tlc(r, "symbolic schedule = evaluation map: " + role)
+    for cfg, role in (("FftInverse.cfg", "m = 1..64, breadth-first regime"), ("FftInverse_rec.cfg", "m = 64 with recursion threshold 32")):
+        r = run_tlc("FftInverse", cfg, workers=7, xmx="24g", name="c06-" + cfg, timeout=1800)
+        tlc_must_pass(r, cfg)
+        chk.add_tlc(r, "symbolic inverse schedule after the forward map = m * identity: " + role)
     r = run_tlc("FftSchedule", "FftSchedule_gen.cfg", workers=1, xmx="8g", name="c06-gen", timeout=900)
     tlc_must_pass(r, "FftSchedule gen")
     tabs = printed_json(r, "TABLE")
